@@ -149,7 +149,9 @@ def plan(prop, tier):
                  sc([G, G, G, G, "mark", "submit"], lean=False, works=(1,), ties=True),
                  sc([G, G, "mark", "clean", G, G, "clean"], D=4, P=1),
                  # chain, fork, fork of the fork; a mark underneath all of them
-                 sc([G, G, G, G, G, "mark"], N=5, D=5, P=5, shape=(0, 1, 1, 3, 3))]
+                 sc([G, G, G, G, G, "mark"], N=5, D=5, P=5, shape=(0, 1, 1, 3, 3)),
+                 # two marks in a row, from the top down, with a fork hanging off the lower one
+                 sc([G, G, G, "mark", "mark", "submit"], N=3, lean=False)]
     elif prop == "C19":
         exh = [("core", 4, 1, 2, 1)]
         gens = [g(D=1, P=2, ops=maint_ops, flags=["-probe"], S=(1, 3, 7)),
@@ -157,6 +159,8 @@ def plan(prop, tier):
                 g(D=1, P=1, ops=maint_ops, flags=["-probe"], S=(1, 7))]
         gens += [sc([G, G, G, G, "clean"], flags=["-probeend"], S=(1, 7)), sc([G, G, G, G], flags=["-probeend"], S=(1, 3), works=(1, 3)), sc([G, G, "clean", G, G], flags=["-probeend"], D=1, P=1, S=(1, 7)),
                  sc([G, G, G, G], flags=["-probeend"], S=(1, 3), works=(1,), ties=True)]
+        # (a prune depth of 0 - only the tip in memory - is outside the implementation's configuration space: the
+        #  depth is the constant 10000; with the hook's depth 0 the locator is empty)
     elif prop == "C18":
         exh = [("maint", 4, 1, 2, 1)]
         pf = ["-proofs"]
